@@ -243,16 +243,22 @@ func genTL(seed uint64, i int) Case {
 var e2eFaults = []string{"sever-endpoint", "sever-server", "close-endpoint", "kick", "proto-error"}
 
 var e2eFirst = []string{"sever-endpoint", "sever-server", "close-endpoint", "kick", "kick-blackholed",
-	"proto-error", "side-loss-endpoint", "side-kick-middial"}
+	"proto-error", "side-loss-endpoint", "side-kick-middial", "hint-blackhole-kick", "hint-blackhole-shutdown"}
+
+// blackholed: the scenarios in which the first endpoint reaches the server
+// through a relay that goes dark (no data, no FIN, no RST).
+func blackholed(fault string) bool {
+	return fault == "kick-blackholed" || strings.HasPrefix(fault, "hint-blackhole-")
+}
 
 var e2eSide = []string{"side-loss-endpoint", "side-loss-server", "side-kick-middial"}
 
 func genE2E(seed uint64, i, j int) Case {
 	r := hx.NewRng(seed*7919 + uint64(j)*104723 + 11)
 	c := Case{I: i, Stream: "e2e", Hold: true}
-	c.Fault = e2eFirst[j%8]
-	c.Conns = []int{1, 2, 0, 3, 2, 1, 2, 4}[j%8]
-	if j >= 8 {
+	c.Fault = e2eFirst[j%len(e2eFirst)]
+	c.Conns = []int{1, 2, 0, 3, 2, 1, 2, 4, 2, 1}[j%len(e2eFirst)]
+	if j >= len(e2eFirst) {
 		c.Conns = r.Intn(9)
 		c.Fault = e2eFaults[r.Intn(len(e2eFaults))]
 		c.Hold = r.Intn(4) > 0
@@ -261,7 +267,7 @@ func genE2E(seed uint64, i, j int) Case {
 			c.Conns = r.Intn(5)
 		}
 		if j%37 == 20 { // (costs the 3 s shutdown time-out of the kick even on a sound tree)
-			c.Fault = "kick-blackholed"
+			c.Fault = []string{"kick-blackholed", "hint-blackhole-kick", "hint-blackhole-shutdown"}[(j/37)%3]
 			c.Conns = 1 + r.Intn(3)
 		}
 	}
@@ -1224,6 +1230,7 @@ type relay struct {
 	lis    net.Listener
 	target string
 	frozen atomic.Bool
+	frozenDown atomic.Bool // only the direction target -> client (server -> endpoint) is dark
 	mu     sync.Mutex
 	conns  []net.Conn
 }
@@ -1248,23 +1255,24 @@ func newRelay(target string) (*relay, error) {
 			r.mu.Lock()
 			r.conns = append(r.conns, a, b)
 			r.mu.Unlock()
-			pipe := func(dst, src net.Conn) {
+			pipe := func(dst, src net.Conn, down bool) {
 				buf := make([]byte, 32*1024)
+				dark := func() bool { return r.frozen.Load() || (down && r.frozenDown.Load()) }
 				for {
 					n, err := src.Read(buf)
-					if n > 0 && !r.frozen.Load() {
+					if n > 0 && !dark() {
 						dst.Write(buf[:n])
 					}
 					if err != nil {
-						if !r.frozen.Load() {
+						if !dark() {
 							dst.Close()
 						}
 						return
 					}
 				}
 			}
-			go pipe(a, b)
-			go pipe(b, a)
+			go pipe(a, b, true)
+			go pipe(b, a, false)
 		}
 	}()
 	return r, nil
@@ -1320,7 +1328,7 @@ func runE2E(c *Case) {
 		mu.Lock()
 		first := len(clients) > 0 && clients[0].Same(cl)
 		mu.Unlock()
-		if first && c.Hold && c.Fault != "kick-blackholed" && c.Fault != "proto-error" && !side &&
+		if first && c.Hold && !blackholed(c.Fault) && c.Fault != "proto-error" && !side &&
 			held.CompareAndSwap(false, true) {
 			atServed <- struct{}{}
 			<-release
@@ -1374,7 +1382,7 @@ func runE2E(c *Case) {
 	}
 	var rl *relay
 	firstHost := ts.Listener.Addr().String()
-	if c.Fault == "kick-blackholed" {
+	if blackholed(c.Fault) {
 		// the first endpoint reaches the server through a relay
 		rl, err = newRelay(firstHost)
 		if err != nil {
@@ -1519,6 +1527,36 @@ func runE2E(c *Case) {
 				defer cancel()
 				first.Call(ctx, 0x7f, "", nil, "", 0)
 			}()
+		case "hint-blackhole-kick", "hint-blackhole-shutdown":
+			// the endpoint starts a graceful close: its shutdown hint reaches the
+			// server, but the server's shutdown request never reaches the endpoint
+			// (that direction is dark already); then the path goes dark altogether;
+			// then the endpoint is kicked by a newer one, resp. the server closes it
+			rl.frozenDown.Store(true)
+			go ep.Close()
+			for t0 := time.Now(); ; time.Sleep(time.Millisecond) {
+				ctx, cancel := context.WithTimeout(context.Background(), 50*time.Millisecond)
+				_, err := first.Hello(ctx, "probe")
+				cancel()
+				if sniproxy.VerifCallErrKind(err) == "alreadyshutdown" {
+					break // the hint has been handled: the transport refuses new calls
+				}
+				if time.Since(t0) > waitBound {
+					c.Hang = "the shutdown hint did not reach the server"
+					break
+				}
+			}
+			rl.frozen.Store(true)
+			if c.Fault == "hint-blackhole-shutdown" {
+				go first.Close()
+			} else {
+				ep2, err = dialEP()
+				if err != nil {
+					c.Hang = "kick dial: " + err.Error()
+				} else {
+					go serveEcho(ep2)
+				}
+			}
 		case "kick", "kick-blackholed":
 			if rl != nil {
 				rl.frozen.Store(true) // the old path goes dark: no data, no FIN
@@ -1530,7 +1568,7 @@ func runE2E(c *Case) {
 				go serveEcho(ep2)
 			}
 		}
-		if c.Hold && c.Fault != "kick-blackholed" && c.Fault != "proto-error" && !side {
+		if c.Hold && !blackholed(c.Fault) && c.Fault != "proto-error" && !side {
 			select {
 			case <-atServed:
 				// hold the server's connection thread before its deferred
@@ -1586,7 +1624,7 @@ func runE2E(c *Case) {
 	}
 	// endpoint side: Accept returns once the tunnel is gone (a black-holed
 	// endpoint cannot know: not observed there)
-	if c.Fault != "kick-blackholed" {
+	if !blackholed(c.Fault) {
 		select {
 		case <-ep1Accept:
 			c.AcceptReturned = true
